@@ -283,4 +283,71 @@ func init() {
 			}
 		}
 	})
+	// C04LAG: reclamation after a forced trim that overtook a consumer's COMMITTED position but not its read position.
+	// FixedBufferCleaner(max, target); the consumer reads r values without committing; more Puts push the size over max and
+	// the forced trim (awaited) moves the start of the buffer past the consumer's committed offset; the consumer then commits,
+	// which puts it r - start > 0 values past the start: "every open consumer has committed past a prefix" again, and that
+	// prefix must go without any further operation (the Commit is the last state change): Size = values put - r.
+	register("C04LAG", func(h *hctx) {
+		bad := 0
+		for i := 0; i < h.n && bad < 3; i++ {
+			d := time.Duration(h.rng.Intn(3)) * 4 * time.Millisecond // 0, 4, 8 ms
+			max := 6 + h.rng.Intn(6)
+			k := 1 + h.rng.Intn(2)
+			target := k + 1 + h.rng.Intn(max-k-2)
+			n0 := max // the buffer is full; the next Put pushes it over max
+			shift := n0 + k - target // what the forced trim removes
+			if shift < 1 || shift >= n0 {
+				continue
+			}
+			r := shift + 1 + h.rng.Intn(n0-shift) // shift < r <= n0
+			b := new(Buffer)
+			*fld[*CleanerConfig](b, "cleaner") = &CleanerConfig{Cleaner: FixedBufferCleaner(max, target, nil), Cooldown: d}
+			c, err := b.NewConsumer()
+			if err != nil {
+				return
+			}
+			for v := 0; v < n0; v++ {
+				_ = b.Put(context.Background(), v)
+			}
+			for v := 0; v < r; v++ {
+				if _, err := c.Get(context.Background()); err != nil {
+					h.line("MONITOR C04 lag case %d: Get %d failed before any trim: %v", i, v, err)
+					return
+				}
+			}
+			for v := 0; v < k; v++ {
+				_ = b.Put(context.Background(), n0+v)
+			}
+			// the forced trim
+			end := time.Now().Add(2*d + 3*time.Second)
+			for b.Size() != target && time.Now().Before(end) {
+				time.Sleep(200 * time.Microsecond)
+			}
+			if sz := b.Size(); sz != target {
+				h.line("MONITOR C04 lag case %d: FixedBufferCleaner(%d, %d): the buffer holds %d values %v after %d Puts and quiescence, expected the forced trim to %d", i, max, target, sz, 2*d+3*time.Second, n0+k, target)
+				bad++
+				_ = c.Rollback()
+				_ = c.Close()
+				_ = b.Close()
+				continue
+			}
+			if err := c.Commit(); err != nil {
+				h.line("MONITOR C04 lag case %d: Commit of %d reads failed: %v", i, r, err)
+				bad++
+			}
+			want := n0 + k - r
+			end = time.Now().Add(2*d + 3*time.Second)
+			for b.Size() != want && time.Now().Before(end) {
+				time.Sleep(200 * time.Microsecond)
+			}
+			if sz := b.Size(); sz != want {
+				h.line("MONITOR C04 lag case %d: after the forced trim to %d (FixedBufferCleaner(%d, %d), cooldown %v) the only consumer committed its %d reads, which puts it %d past the start of the buffer, and nothing else happened: Size is %d after %v, expected its backlog %d", i, target, max, target, d, r, r-shift, sz, 2*d+3*time.Second, want)
+				bad++
+			}
+			_ = c.Close()
+			_ = b.Close()
+			h.count("c04lag_cases", 1)
+		}
+	})
 }
